@@ -596,9 +596,17 @@ class Check:
             ev['coverage']['notes'] = self.notes
         if self.known_hits:
             ev['coverage']['known_findings_hit'] = [k.get('id') for k in self.known_hits]
-        os.makedirs(EVID, exist_ok=True)
-        with open(os.path.join(EVID, self.pid + '.json'), 'w') as fh:
+        # checks X.. cover behaviour beyond the listed properties: own evidence directory, own verdict wording
+        extra = self.pid.startswith('X')
+        evdir = os.path.join(VERIF, 'evidence-extra') if extra else EVID
+        os.makedirs(evdir, exist_ok=True)
+        with open(os.path.join(evdir, self.pid + '.json'), 'w') as fh:
             json.dump(ev, fh, indent=1, default=str)
+        if extra and self.violations:
+            for w, path in self.violations[:20]:
+                print('DEVIATION extra=%s (outside the listed properties) replay=%s' % (self.pid, path))
+                log('  witness:', json.dumps(w, default=str)[:600])
+            return 1
         for k in self.known_hits:
             print('KNOWN-FINDING: property=%s %s' % (self.pid, k.get('what', k.get('id'))))
         if self.violations:
